@@ -105,6 +105,9 @@ class RIB:
         self.outgoing.enabled = True
         self.incoming.families = families
         self.outgoing.families = families
+        # the shared RIBs kept the adj-rib-in/adj-rib-out setting of the first file for ever
+        self.incoming.cache = adj_rib_in
+        self.outgoing.cache = adj_rib_out
         self.outgoing.delete_cached_family(families)
 
         if not adj_rib_out:
